@@ -1,4 +1,5 @@
 \* block level: one contract, one slot, values {0,1}, one class, 3 transactions (one L1 handler), <= 3 blocks, <= 2 diff entries, <= 2 txs
+\* measured: 26 842 distinct states, ~15 s on 4 workers
 CONSTANTS
   Users = {"c1"}
   Sys = {}
